@@ -85,6 +85,17 @@ def check_env():
             probs.append(f"option proxy: {got}")
         if get_proxy_info("h", False, proxy_host="px", proxy_port=9, no_proxy=["h"]) != (None, 0, None):
             probs.append("exempt host still proxied")
+        # both no_proxy sources present: the option, when given, decides alone ("the no_proxy option (else the environment)")
+        for var in ("no_proxy", "NO_PROXY"):
+            for envval, opt, want in (("h", ["other"], ("px", 9, None)), ("*", ["other"], ("px", 9, None)), ("other", ["h"], (None, 0, None)),
+                                      (".example.com", [".example.org"], ("px", 9, None)), ("h", [], (None, 0, None)), ("h", None, (None, 0, None))):
+                for k in saved:
+                    os.environ.pop(k, None)
+                os.environ[var] = envval
+                host = "h" if not envval.startswith(".") else "a.example.com"
+                got = get_proxy_info(host, False, proxy_host="px", proxy_port=9, no_proxy=opt)
+                if got != want:
+                    probs.append(f"{var}={envval!r} with no_proxy option {opt!r}, host {host}: {got} != {want}")
     finally:
         for k, v in saved.items():
             os.environ.pop(k, None)
